@@ -25,6 +25,8 @@ NLFixed == {[h |-> A("r", <<X, Y>>), b |-> <<<<"pos", A("l", <<X, Y>>)>>>>, t |-
 NLEdbs ==
   { {A("l", <<N1, N2>>)},
     {A("l", <<N1, N2>>), A("l", <<N2, N3>>), A("l", <<N3, N4>>), A("t", <<N1, N2, N3>>), A("t", <<N1, N3, N4>>)},
-    {A("l", <<N1, N1>>), A("l", <<N2, N3>>), A("t", <<N1, N1, N2>>), A("t", <<N1, N2, N3>>), A("t", <<N2, N1, N4>>)} }
+    {A("l", <<N1, N1>>), A("l", <<N2, N3>>), A("t", <<N1, N1, N2>>), A("t", <<N1, N2, N3>>), A("t", <<N2, N1, N4>>)},
+    \* base facts stated for predicates that rules also define (the recursion is seeded by facts of s and r themselves)
+    {A("l", <<N1, N2>>), A("l", <<N2, N3>>), A("s", <<N4>>), A("t", <<N1, N2, N3>>), A("t", <<N4, N1, N2>>), A("l", <<N4, N1>>)} }
 KeepSafe(r) == Safe(r)
 =============================================================================
